@@ -44,7 +44,7 @@ allvars == <<ovars, dvars>>
 
 IntegName(i) == "webhook/" \o ToString(i - 1)
 TheCfg == [gw |-> GW, gi |-> GI, ri |-> RI, integs |-> [i \in 1..Len(SR) |-> [name |-> IntegName(i), sr |-> SR[i]]],
-           inhibit |-> INH, windows |-> Windows]
+           inhibit |-> INH, windows |-> Windows, wait |-> 0, maxwait |-> 0]
 NInt == Len(SR)
 AgName(i) == "ag" \o ToString(i)
 
